@@ -216,7 +216,8 @@ theorem inWheel_newCallOut {w : World} (o f : Nat) (tag : String) (delay : Int) 
 
 theorem inWheel_removeAll {w : World} (o : Nat) (c : Call) :
     InWheel (removeAll w o) c ↔ (InWheel w c ∧ (c.owner == o || w.dead.contains c.owner) = false) := by
-  unfold InWheel removeAll
+  rw [removeAll_eq_spec]
+  unfold InWheel removeAllSpec
   simp only [cum_removeAllList, List.mem_filter]
   constructor
   · rintro ⟨s, D, hm, hp⟩
